@@ -1,6 +1,7 @@
 """C07: transformations preserve incidence, commute with join/meet, keep quadric membership/tangency and cross ratios."""
 from __future__ import annotations
 
+import json
 from multiprocessing import Pool
 
 import numpy as np
@@ -137,8 +138,51 @@ def _replay(recs, reused):
     return out
 
 
+def replay_jm_coll(groups):
+    """join / meet commute with a transformation for collections too: the configurations of one family (general, dependent
+    and skew ones mixed) stacked into collections; t * op(args) and op(t * args) must agree position by position, and a
+    collection holding a dependent / skew position must raise the same error on both sides."""
+    g = import_geometer()
+    from ..geom import build_coll
+    out = []
+    for f, M, recs in groups:
+        op, kinds = KINDS[f]
+        fn = g.join if op == "join" else g.meet
+        t = g.Transformation(np.array(M))
+        site = f"{op}({','.join(kinds)})/collection"
+        case = {"f": f, "M": M, "count": len(recs), "errors": sorted({r["e"] for r in recs})}
+        try:
+            cols = [build_coll(k, [r["a"][i] for r in recs]) for i, k in enumerate(kinds)]
+            imgs = [t * c for c in cols]
+            want = "NotCoplanar" if any(r["e"] == "NotCoplanar" for r in recs) else ("LinearDependence" if any(r["e"] != "none" for r in recs) else "none")
+            outcome = []
+            for side, call in (("op(args)", lambda: fn(*cols)), ("op(t*args)", lambda: fn(*imgs))):
+                try:
+                    outcome.append((side, "none", call()))
+                except Exception as e:  # noqa: BLE001
+                    outcome.append((side, err_name(e), e))
+            for side, e, val in outcome:
+                if e != want:
+                    out.append(dict(site=f"{site}/{side}", stratum=("jm/" + f if want == "none" else want), case=case, expected={"err": want},
+                                    observed={"err": e, "detail": str(val)[:120] if e != "none" else "returned"}))
+            if want == "none" and all(e == "none" for _, e, _ in outcome):
+                lhs = t * outcome[0][2]
+                rhs = outcome[1][2]
+                for i, r in enumerate(recs):
+                    for name, val in (("t*op(args)", lhs), ("op(t*args)", rhs)):
+                        dd = compare_any(val, r["r"], pos=i)
+                        if dd is not None:
+                            out.append(dict(site=f"{site}/{name}", stratum="jm/" + f, case={**case, "position": i, "a": r["a"]}, expected=r["r"], observed=dd))
+                            break
+        except Exception as e:  # noqa: BLE001
+            out.append(dict(site=site, stratum="jm/" + f, case=case, expected="no exception", observed=f"raised {type(e).__name__}: {e}"))
+    return out
+
+
 def _work(job):
     try:
+        if isinstance(job, tuple) and job[0] == "jmcoll":
+            return replay_jm_coll(job[1])
         return replay(job)
     except Exception:  # noqa: BLE001
         import traceback
@@ -166,6 +210,25 @@ def run(ctx: Ctx):
             raise MachineryError(f"stratum {need} never visited (vacuous)")
     ctx.log(f"{len(recs)} cases")
     jobs = [recs[i:i + 400] for i in range(0, len(recs), 400)]
+    # collections for join / meet: per (family, matrix) the general configurations in groups of 6, and groups in which one
+    # position is dependent or skew
+    fam: dict = {}
+    for x in recs:
+        if x["r"]["t"] == "jm":
+            fam.setdefault((x["r"]["f"], json.dumps(x["r"]["M"])), []).append(x["r"])
+    cgroups = []
+    for (f, Mj), rs in sorted(fam.items()):
+        gen = [r for r in rs if r["e"] == "none"]
+        bad = [r for r in rs if r["e"] != "none"]
+        for i in range(0, min(len(gen), 60), 6):
+            if len(gen[i:i + 6]) >= 2:
+                cgroups.append((f, json.loads(Mj), gen[i:i + 6]))
+        for j, b in enumerate(bad[:6]):
+            if len(gen) >= 3:
+                cgroups.append((f, json.loads(Mj), gen[j:j + 2] + [b] + gen[j + 2:j + 3]))
+    if len(cgroups) < 50:
+        raise MachineryError("too few join/meet collection groups (vacuous)")
+    jobs += [("jmcoll", cgroups[i:i + 80]) for i in range(0, len(cgroups), 80)]
     with Pool(16) as pool:
         results = pool.map(_work, jobs, chunksize=1)
     for res in results:
